@@ -56,6 +56,19 @@ def _rep(k, i):
     return (k, float(k), _K(k), True if k == 1 else k)[i % 4]
 
 
+class _BadHash:
+    """a key whose hash raises: every dict operation on it fails before anything is modified"""
+    def __hash__(self):
+        raise ZeroDivisionError("hash")
+
+    def __eq__(self, other):
+        return False
+
+
+def _fault_key(kind):
+    return [] if kind == "u" else {} if kind == "d" else _BadHash()
+
+
 def real_run(LRUCache, cap, ops, variant=0):
     import copy as _copy
     c = LRUCache(cap)
@@ -94,6 +107,29 @@ def real_run(LRUCache, cap, ops, variant=0):
                 c = c.copy() if (i + variant) % 2 == 0 else _copy.copy(c); r = "N"
             elif t == "P":
                 c = pickle.loads(pickle.dumps(c, (i + variant) % (pickle.HIGHEST_PROTOCOL + 1))); r = "N"
+            elif t == "F":
+                # an operation with a key the dict rejects (unhashable / hash raises): must raise that error
+                # and leave the cache exactly as it was
+                fk, want = _fault_key(p[1]), ("eT" if p[1] in "ud" else "eZ")
+                try:
+                    if p[2] == "S":
+                        c[fk] = 1
+                    elif p[2] == "g":
+                        c[fk]
+                    elif p[2] == "D":
+                        del c[fk]
+                    elif p[2] == "G":
+                        c.get(fk, 0)
+                    elif p[2] == "T":
+                        c.setdefault(fk, 0)
+                    elif p[2] == "C":
+                        fk in c
+                    r = "f?none"
+                except TypeError:
+                    r = "eT"
+                except ZeroDivisionError:
+                    r = "eZ"
+                r = "F" if r == want else "f?" + r
             else:
                 raise AssertionError(o)
         except KeyError:
@@ -157,15 +193,33 @@ def run(ctx):
     for n in range(1, 3):
         for ops in itertools.product(CORE, repeat=n):
             cases.append((0, concretize(ops)))
-    lines = [f"{cap} " + " ".join(ops) for cap, ops in cases]
+    # histories with faulting operations (a key the dict rejects): identity steps of model and spec — the real
+    # cache must raise the key's error and behave afterwards exactly as if the operation had not happened
+    FAULTS = [f"F:{k}:{o}" for k in "udh" for o in "SgDGTC"]
+    n_fault = 0
+    for _ in range(ctx.size(6000, 60000)):
+        n = ctx.rng.randint(4, 12)
+        ops = [ctx.rng.choice(FULL) if ctx.rng.random() < 0.7 else ctx.rng.choice(FAULTS) for _ in range(n)]
+        if any(o.startswith("F:") for o in ops):
+            cases.append((ctx.rng.randint(1, 3), concretize(ops)))
+            n_fault += 1
+    ctx.count("seq_with_faulting_operations", n_fault)
+    lines = [f"{cap} " + " ".join(o for o in ops if not o.startswith("F:")) for cap, ops in cases]
     out = ctx.driver("lru", lines)
     for (cap, ops), ln in zip(cases, out):
         m, s = ln[2:].split(" | S ")
         impl = real_run(LRUCache, cap, ops)
+        if any(o.startswith("F:") for o in ops):
+            parts = impl.split(";")
+            if any(x != "F" for x, o in zip(parts, ops) if o.startswith("F:")):
+                ctx.reject({"cap": cap, "ops": ops, "impl": impl}, "an operation with a key the dict rejects did not raise that key's error", None)
+                continue
+            impl = ";".join(x for x, o in zip(parts, ops) if not o.startswith("F:"))
         if len(ops) >= 3 and (len(ops) + cap) % 5 == 0:
             # the same history with ==-equal keys of other types (float, bool, int subclass), copy.copy
             # instead of .copy(), other pickle protocols: results must not change
             alt = real_run(LRUCache, cap, ops, variant=1 + len(ops) % 3)
+            alt = ";".join(x for x, o in zip(alt.split(";"), ops) if not o.startswith("F:")) if any(o.startswith("F:") for o in ops) else alt
             if alt != impl:
                 ctx.reject({"cap": cap, "ops": ops, "impl": impl, "with_equal_keys_of_other_types": alt},
                            "LRUCache results depend on the type of ==-equal keys / the copy or pickle route", None)
